@@ -208,6 +208,8 @@ func (r *lockRig) candidates(pre *ref.State) []lockCand {
 	}
 	if !req.NMI && pre.IM == 0 && r.known[sigIm0] {
 		cs = append(cs, lockCand{known: sigIm0, run: accept(ref.Quirks{Im0ExecutesAtPC: true}, 0)})
+		// the same finding without the overlay's side effects on data accesses (DESIGN.md 4.5)
+		cs = append(cs, lockCand{known: sigIm0, run: accept(ref.Quirks{Im0ExecutesAtPC: true, Im0NoOverlay: true}, 0)})
 	}
 	return cs
 }
@@ -256,6 +258,7 @@ func (r *lockRig) step() lockStep {
 	got := eng.FromCPU(&r.cpu)
 
 	var firstDiscs []eng.Disc
+	var touched []uint16
 	for ci, c := range cands {
 		s := o.pre
 		r.mb.Begin()
@@ -292,9 +295,16 @@ func (r *lockRig) step() lockStep {
 		}
 		ds := eng.StateDiff(&got, &s, &o.pre, &in)
 		if r.useDumb {
+			// no access log on the bundled memory: the cells this outcome touches, and those any outcome tried before
+			// it touches (a write the emulator made and this outcome does not have must not go unnoticed)
 			for _, x := range r.mb.Log {
-				if (x.K == bus.Read || x.K == bus.Write) && r.dumb[x.Addr] != r.mb.Peek(x.Addr) {
-					ds = append(ds, eng.Disc{Kind: eng.KMemImg, Msg: fmt.Sprintf("mem[%04x]=%02x want %02x (on DumbMemory)", x.Addr, r.dumb[x.Addr], r.mb.Peek(x.Addr))})
+				if x.K == bus.Read || x.K == bus.Write {
+					touched = append(touched, x.Addr)
+				}
+			}
+			for _, a := range touched {
+				if r.dumb[a] != r.mb.Peek(a) {
+					ds = append(ds, eng.Disc{Kind: eng.KMemImg, Msg: fmt.Sprintf("mem[%04x]=%02x want %02x (on DumbMemory)", a, r.dumb[a], r.mb.Peek(a))})
 					break
 				}
 			}
